@@ -39,6 +39,33 @@
 // Boxes in front of a moof that belong to the fragment (emsg, prft) stay with that fragment, in order; a
 // segment-level sidx after a styp belongs to that segment; other top-level boxes (free, skip, uuid,
 // unknown) are not part of init or media segments and are dropped by the default encode mode.
+//
+// # What exactly is compared
+//
+//	(1) per library fragment, in file order: Moof.StartPos/Size, Mdat.StartPos/Size, mfhd sequence number
+//	    against the writer's truth; number of segments and fragments per segment against the rule; the type
+//	    and size of every Fragment.Children entry against [emsg/prft boxes of the fragment, moof, mdat];
+//	    Fragment.StartPos and MediaSegment.StartPos against the first byte of the fragment / segment (styp,
+//	    or the first box of the first fragment); Styp / segment-level Sidxs per segment; File.Sidxs, File.Mfra.
+//	(2) Encode and EncodeSW output == concatenation of the kept top-level boxes of the input (ftyp, moov,
+//	    top-level sidx, per segment styp, sidx boxes, per fragment emsg/prft, moof, mdat; mfra) — which IS the
+//	    input when it has no free/skip/uuid/unknown top-level box. Two fields may follow a moved moof
+//	    (compareOut): tfhd.base_data_offset and tfra.moof_offset.
+//	(3) with positions taken from the output bytes (own box walker and sidx parser, fragbuild.Read for
+//	    samples/mfra): init boxes unchanged, exactly one sidx directly after them, then the media boxes of (2);
+//	    reference_count == number of segments, reference i starts at the first byte of segment i (anchor =
+//	    end of the sidx + first_offset), the last one ends where the media ends (at the mfra, if any),
+//	    subsegment_duration == summed sample durations of the reference track in the segment (model),
+//	    timescale and reference_ID of the reference track (first video, else first audio, else first track:
+//	    findReferenceTrak; UpdateSidx has no documentation of its own), earliest_presentation_time == 0 or,
+//	    with nonZeroEPT, decode time + composition offset of the first sample of the reference track in the
+//	    first segment; all samples of all tracks read back from the output equal the model; segment-level
+//	    sidx boxes still end at a segment end; tfra entries lead to their moofs.
+//
+// Limitations: the lazy-mdat decoder is judged on (1) only (its encoders write no payload, as documented);
+// EPT is compared with the FIRST sample of the reference track, not with the minimum presentation time;
+// one or two sidx boxes per segment, one top-level sidx, no hierarchical sidx; several trafs per track, legacy
+// base offsets with several trafs and truns without data_offset are left to fragbuild's own list.
 package c12
 
 import (
@@ -98,7 +125,8 @@ var avoidKnown = map[string]bool{
 	// emsg in front of the 2nd.. moof of a segment is appended to the PRECEDING fragment (after its mdat).
 	"emsg-mid-segment-in-previous-fragment": true,
 	// DecISMFlag: the tfra entry points at the moof, so an emsg in front of the first moof of the 2nd..
-	// segment ends up in the last fragment of the PRECEDING segment.
+	// segment ends up in the last fragment of the PRECEDING segment (the same would hold for a prft once
+	// prft boxes are handed to fragments, so both are kept out of that place).
 	"ism-emsg-before-segment-moof": true,
 	// prft in front of a moof is never handed to the Fragment ("[prft] + moof + mdat") and is dropped by
 	// the default encode mode.
@@ -672,7 +700,33 @@ func compareOut(who string, got []byte, exp []ebox) ([]uint64, *harness.Fail) {
 	return pos, nil
 }
 
+// evalSeg is the oracle. The membership of prft boxes is the one relation that shapes the whole expectation
+// (fragment children, first bytes, output bytes); while it is a known finding (switch "prft-dropped") a
+// case with prft boxes passes when it holds with the prft boxes kept or, failing that, with them dropped.
 func evalSeg(c *segCase, st *stats) *harness.Fail {
+	hasPrft := false
+	for si := range c.Layout.Segments {
+		for fi := range c.Layout.Segments[si].Frags {
+			for _, x := range c.Layout.Segments[si].Frags[fi].PreBoxes {
+				hasPrft = hasPrft || x.Type == "prft"
+			}
+		}
+	}
+	if !hasPrft || !c.avoid("prft-dropped") {
+		return evalSegWith(c, st, true)
+	}
+	var st1 stats
+	if evalSegWith(c, &st1, true) == nil {
+		for k := range st1.skipped {
+			c.skip(st, k)
+		}
+		return nil
+	}
+	c.skip(st, "prft-dropped")
+	return evalSegWith(c, st, false)
+}
+
+func evalSegWith(c *segCase, st *stats, keepPrft bool) *harness.Fail {
 	if len(c.Tracks) == 0 || len(c.Layout.Segments) == 0 {
 		return harness.Failf("harness|c12|bad-case", "no tracks or no segments")
 	}
@@ -695,7 +749,6 @@ func evalSeg(c *segCase, st *stats) *harness.Fail {
 	rule := c.rule()
 	part := c.partition()
 	dec := decName(c)
-	keepPrft := !c.avoid("prft-dropped")
 
 	// ---- the model: fragments in file order, expected segment of each, expected output boxes
 	var frags []*fragbuild.FragTruth
@@ -723,7 +776,6 @@ func evalSeg(c *segCase, st *stats) *harness.Fail {
 	if truth.TopSidx != nil {
 		boxes = append(boxes, obox{in: *truth.TopSidx, seg: -1, frag: -1, role: "topsidx"})
 	}
-	hasPrft := false
 	g := 0
 	for si := range truth.Segments {
 		sgt := &truth.Segments[si]
@@ -742,9 +794,6 @@ func evalSeg(c *segCase, st *stats) *harness.Fail {
 		for fi := range sgt.Frags {
 			ft := &sgt.Frags[fi]
 			for _, p := range ft.Pre {
-				if p.Type == "prft" {
-					hasPrft = true
-				}
 				if keptPre(p.Type, keepPrft) {
 					boxes = append(boxes, obox{in: p, seg: segOf[g], frag: g, role: "pre"})
 				}
@@ -753,9 +802,6 @@ func evalSeg(c *segCase, st *stats) *harness.Fail {
 			boxes = append(boxes, obox{in: ft.Mdat, seg: segOf[g], frag: g, role: "mdat"})
 			g++
 		}
-	}
-	if hasPrft {
-		c.skip(st, "prft-dropped")
 	}
 	if truth.Mfra != nil {
 		boxes = append(boxes, obox{in: *truth.Mfra, seg: -1, frag: -1, role: "mfra"})
@@ -937,15 +983,19 @@ func evalSeg(c *segCase, st *stats) *harness.Fail {
 	if err := f.EncodeSW(sw); err != nil {
 		return harness.Failf("C12|File.EncodeSW|error on decoded file|rule="+rule, "%v; %s", err, describe())
 	}
-	expSW := exp
-	if truth.Mfra != nil && c.skip(st, "encodesw-drops-mfra") {
-		expSW = exp[:len(exp)-1]
-	}
-	if _, fail := compareOut("File.EncodeSW", sw.Bytes(), expSW); fail != nil {
-		if !bytes.Equal(sw.Bytes(), out.Bytes()) && strings.Contains(fail.Key, "mfra expected") {
-			fail.Key = "C12|File.EncodeSW|mfra written by Encode is missing"
+	if _, fail := compareOut("File.EncodeSW", sw.Bytes(), exp); fail != nil {
+		// not judged under the switch: the same output without the mfra
+		lenient := false
+		if truth.Mfra != nil && c.skip(st, "encodesw-drops-mfra") {
+			_, fail2 := compareOut("File.EncodeSW", sw.Bytes(), exp[:len(exp)-1])
+			lenient = fail2 == nil
 		}
-		return fail
+		if !lenient {
+			if !bytes.Equal(sw.Bytes(), out.Bytes()) && strings.Contains(fail.Key, "mfra expected") {
+				fail.Key = "C12|File.EncodeSW|mfra written by Encode is missing"
+			}
+			return fail
+		}
 	}
 
 	// ---- (3) UpdateSidx + Encode
@@ -1526,7 +1576,7 @@ func steerClear(c *segCase) []string {
 		}
 		g := 0
 		eachFrag(func(si, fi int, fr *fragbuild.Frag) {
-			if first[g] && dropPre(fr, func(i int, x *fragbuild.ExtraBox) bool { return isEmsg(x) }) {
+			if first[g] && dropPre(fr, func(i int, x *fragbuild.ExtraBox) bool { return isEmsg(x) || x.Type == "prft" }) {
 				note("ism-emsg-before-segment-moof")
 			}
 			g++
